@@ -2,6 +2,7 @@ package parser
 
 import (
 	"encoding/json"
+	"errors"
 	"fmt"
 )
 
@@ -42,11 +43,22 @@ func (e *NestedError) Error() string {
 	}
 	e.Vals["err"] = e.Err.Error()
 	e.Vals["msg"] = e.Msg
-	data, err := json.Marshal(e.Vals.Dupe())
+	data, err := marshalVals(e.Vals.Dupe())
 	if err != nil {
 		return fmt.Sprintf("%s: %s", e.Msg, e.Err.Error())
 	}
 	return string(data)
+}
+
+// marshalVals renders the attached values as JSON. A value whose own marshalling
+// method panics is treated like any other value that cannot be encoded.
+func marshalVals(vals ErrVals) (data []byte, err error) {
+	defer func() {
+		if recover() != nil {
+			data, err = nil, errors.New("attached values cannot be encoded")
+		}
+	}()
+	return json.Marshal(vals)
 }
 
 func (e *NestedError) Set(vals ErrVals) *NestedError {
